@@ -8,6 +8,7 @@ import VarmqVerif.Model.Trim
 import VarmqVerif.Model.Reap
 import VarmqVerif.Model.Disp
 import VarmqVerif.Model.FifoDisp
+import VarmqVerif.Model.Cap
 import VarmqVerif.Model.Config
 import VarmqVerif.Model.Wake
 import VarmqVerif.Model.Ack
@@ -1053,4 +1054,50 @@ def feed (st : RState St) (lineNo : Nat) (l : RawLine) : RState St :=
       | .error e => .rejected lineNo s!"{e} @ {l.tag} {l.g} {" ".intercalate l.f}"
   | r => r
 end FifoDispMap
+/-! ## Cap: number of workers against the slot accounting -/
+namespace CapMap
+open Cap
+
+structure St where
+  s : Cap.State := {}
+  slot : List Nat := []                 -- dispatcher goroutines that hold a slot and have no worker for it yet
+  serveOf : List (Nat × Nat) := []      -- server goroutine ↦ pool node
+
+def nodeId (s : String) : Nat := natOf ((s.splitOn "#").getD 1 "")
+def aget (l : List (Nat × Nat)) (k : Nat) : Option Nat := (l.find? (·.1 == k)).map (·.2)
+def aset (l : List (Nat × Nat)) (k v : Nat) : List (Nat × Nat) := (k, v) :: l.filter (·.1 != k)
+
+def events (x : St) (l : RawLine) : Except String (St × List Ev) :=
+  let g := l.g
+  match l.tag, l.f with
+  | "E", [fn, obj, op, arg, res] =>
+    if (obj.startsWith "worker#" && !(obj.startsWith "worker#1.")) || (obj.startsWith "List#" && !(obj == "List#1" || obj.startsWith "List#1.")) then .error "NA second worker"
+    else if obj == "worker#1.concurrency" && op == "load" then .ok (x, [.lim (natOf res)])
+    else if obj == "worker#1.concurrency" && op == "store" then .ok (x, [.lim (natOf arg)])
+    else if fn == "worker.reserve" && obj == "worker#1.curProcessing" && op == "cas" && res == "true" then
+      .ok ({ x with slot := g :: x.slot.filter (· != g) }, [.reserve])
+    else if obj == "worker#1.curProcessing" && op == "add" && (arg == "-1" || arg == "4294967295") then
+      if x.slot.contains g then .ok ({ x with slot := x.slot.filter (· != g) }, [.unreserve]) else .ok (x, [.release])
+    else if fn == "Node.Serve" && op == "call:Serve" then .ok ({ x with serveOf := aset x.serveOf g (nodeId obj) }, [])
+    else if obj == "List#1" && op == "ret:PopBack" then
+      .ok ({ x with slot := x.slot.filter (· != g) }, [if res == "nil" then .create else .take])
+    else if obj == "List#1" && op == "ret:PushNode" then
+      .ok (x, [if (aget x.serveOf g).isSome then .push else .start])
+    else if fn == "Node.Stop" && op == "call:Stop" && aget x.serveOf g == some (nodeId obj) then .ok (x, [.retire])
+    else if obj == "List#1" && op == "ret:Remove" && res == "true" then .ok (x, [.remove])
+    else if obj == "List#1" && op == "ret:PopBackIfLonger" && res != "nil" then .ok (x, [.remove])
+    else .ok (x, [])
+  | _, _ => .ok (x, [])
+
+def feed (st : RState St) (lineNo : Nat) (l : RawLine) : RState St :=
+  match st with
+  | .ok x =>
+    match events x l with
+    | .error e => if e.startsWith "NA" then .na e else .rejected lineNo s!"{e} @ {l.tag} {l.g} {" ".intercalate l.f}"
+    | .ok (x', evs) =>
+      match feedAll Cap.step x'.s evs with
+      | .ok s' => .ok { x' with s := s' }
+      | .error e => .rejected lineNo s!"{e} @ {l.tag} {l.g} {" ".intercalate l.f}"
+  | r => r
+end CapMap
 end VarmqVerif.Driver
